@@ -17,11 +17,11 @@ RULE = ('Evaluation = one run() + three metar_msg() calls on a frame that satisf
         'types > 3, VV, type-0 with height, type-1 with NaN, missing lower types, sub-second / offset / positive '
         'time axes, all degenerate families, thick bi/tri-modal groups, chains of close layers, non-unique index '
         'labels, superfluous columns holding lists/dicts/arrays/timestamps) x the full parameter generator (all three scaling modes, thresholds down to 0.004, LOWESS it=0, '
-        'rescale_0_to_x None, 1-3 separation bins, exclusion lists, MSA anywhere; a third of the cases with legal corner values: look-back 0.001 %, percentiles 0/100, LOWESS frac 1e-6..1, buffers 0/1e5, equal height_scale_range bounds, separations 1e-6..1e5, delta_mul_gain 1e-6..10, rescale 1e-3/1e6). Distinct = hash of (rows, '
+        'rescale_0_to_x None, 1-3 separation bins, exclusion lists, MSA anywhere; a third of the cases with legal corner values: look-back 0.001 %, percentiles 0/100, LOWESS frac 1e-6..1, buffers 0/1e5, equal height_scale_range bounds, separations 1e-6..1e5, delta_mul_gain 1e-6..10, rescale 1e-3/1e6). Scenes sliced by time whose slices hold the 1-3 rows of one time step (same height reported under several hit types, coincident instruments); the optional run() arguments geoloc (any str, incl. format directives) and ref_dt (str, naive and aware datetime / Timestamp) with logging at DEBUG. Distinct = hash of (rows, '
         'parameters); every case counts as non-trivial except the single-row ones.')
 ASSUMPTIONS = ['BLAS/OpenMP threads fixed to 1', 'settings that shatter > 150 hits into hundreds of slices are not '
                'generated: the grouping step is quadratic in the number of slices (slow, not divergent)']
-REQUIRED = ['fam:extreme_axes', 'fam:extreme_clustering', 'debug_logging', 'fam:ulp_dt', 'range_index', 'fam:gmm_direct', 'extra_object_columns', 'extreme_parameters', 'fam:generic', 'fam:degenerate', 'fam:bimodal', 'fam:chain', 'fam:empty_after_crop', 'scaling:minmax-scale',
+REQUIRED = ['fam:timesliced', 'fam:run_args', 'ref_dt:datetime:aware', 'ref_dt:Timestamp:aware', 'single_slice_bundle_of_one_repeated_hit', 'fam:extreme_axes', 'fam:extreme_clustering', 'debug_logging', 'fam:ulp_dt', 'range_index', 'fam:gmm_direct', 'extra_object_columns', 'extreme_parameters', 'fam:generic', 'fam:degenerate', 'fam:bimodal', 'fam:chain', 'fam:empty_after_crop', 'scaling:minmax-scale',
             'scaling:shift-and-scale', 'scaling:step-scale', 'anomalies', 'refusal:missing_column',
             'refusal:duplicates', 'refusal:type0_coincident', 'refusal:vv_coincident', 'refusal:empty',
             'refusal:not_a_frame', 'refusal:call_order', 'refusal:min_sep_lengths'] + \
@@ -58,9 +58,60 @@ def plan(tier, seed):
         out.append({'fam': 'ulp_dt', 's': seed, 'p': NUM, 'i': 600000 + i})
     for i in range(12 if tier == 'quick' else 200):        # 500 direct calls of the layering helper each
         out.append({'fam': 'gmm_direct', 's': seed, 'p': NUM, 'i': 500000 + i, 'n': 500})
+    for i in range(60 if tier == 'quick' else 2000):        # slices made of the 1-3 rows of one time step
+        out.append({'fam': 'timesliced', 's': seed, 'p': NUM, 'i': 800000 + i})
+    for i in range(len(RUN_ARGS) * (1 if tier == 'quick' else 10)):   # the optional arguments of run()
+        out.append({'fam': 'run_args', 's': seed, 'p': NUM, 'i': 900000 + i})
     for i in range(len(REFUSALS) * (3 if tier == 'quick' else 40)):
         out.append({'fam': 'refusal', 'kind': REFUSALS[i % len(REFUSALS)], 's': seed, 'p': NUM, 'i': 400000 + i})
     return out
+
+
+def _run_args():
+    from datetime import datetime, timezone, timedelta
+    refs = [None, '2026-01-01 00:00:00', '', 'whenever', datetime.now(), datetime.now(timezone.utc),
+            datetime(2020, 2, 29, 23, 59, 59, tzinfo=timezone(timedelta(hours=5, minutes=30))), datetime.min, datetime.max,
+            pd.Timestamp.now(), pd.Timestamp.now(tz='UTC'), pd.Timestamp('2024-03-31 02:30:00+02:00')]
+    geos = [None, 'Payerne', '', 'Z\u00fcrich \u2708', 'x' * 300, 'two\nlines', '%s %d {} {0!r} %(name)s', 'Mock data']
+    return [(r, geos[(j * 3 + j // len(geos)) % len(geos)]) for j, r in enumerate(refs * 2)]
+
+
+RUN_ARGS = list(range(24))
+
+
+def check_run_args(desc):
+    """The optional, documented arguments of run(): geoloc (any str) and ref_dt (str or datetime, naive or aware)."""
+    import ampycloud
+    from ampycloud.data import CeiloChunk
+    from .. import env as _env
+    import contextlib
+    rng = scenes.rng_for(desc['s'], NUM, desc['i'])
+    sc = scenes.gen_scene(rng, nce=2, maxrows=150)
+    df = scenes.frame(sc)
+    ref_dt, geoloc = _run_args()[desc['i'] % len(RUN_ARGS)]
+    viol = []
+    dbg = desc['i'] % 2 == 0
+    with warnings.catch_warnings(), (_env.debug_logging() if dbg else contextlib.nullcontext()):
+        warnings.simplefilter('ignore')
+        try:
+            ch = ampycloud.run(df, prms={'MSA': None}, geoloc=geoloc, ref_dt=ref_dt)
+            msg = ch.metar_msg()
+            if not isinstance(ch, CeiloChunk) or not isinstance(msg, str):
+                oracles.V(viol, 'C08', 'run() did not return a CeiloChunk', got=type(ch).__name__)
+            if ch.geoloc != geoloc or ch.ref_dt != (ref_dt if ref_dt is None or isinstance(ref_dt, str) else str(ref_dt)):
+                oracles.V(viol, 'C08', 'geoloc / ref_dt not kept as given', geoloc=repr(ch.geoloc)[:80], ref_dt=repr(ch.ref_dt)[:80])
+            if desc['i'] % 6 == 0:
+                m2 = ampycloud.metar(df)
+                if not isinstance(m2, str):
+                    oracles.V(viol, 'C08', 'metar_msg() did not return a str', which='ampycloud.metar', got=repr(m2)[:60])
+        except Exception as e:       # noqa
+            oracles.V(viol, 'C08', 'exception on valid input', exc=type(e).__name__, msg=str(e)[:200], empties_chunk=False,
+                      where='run(geoloc=%r, ref_dt=%r)' % (geoloc if geoloc is None else geoloc[:30], ref_dt), family='run_args')
+        finally:
+            ampycloud.reset_prms()
+    tags = ['fam:run_args', 'ref_dt:' + type(ref_dt).__name__ + (':aware' if getattr(ref_dt, 'tzinfo', None) is not None else '')]
+    return {'evals': 1, 'nontrivial': [obs.case_hash('run_args', desc['i'], sc['rows'])], 'tags': tags, 'viol': viol,
+            'counters': {'runs': 1}, 'sample': {'workload': 'run() optional arguments', 'ref_dt': repr(ref_dt), 'geoloc': repr(geoloc)[:40]} if desc['i'] % 8 == 0 else None}
 
 
 def empty_after_crop_case(desc):
@@ -228,7 +279,14 @@ def check(desc):
         return check_refusal(desc)
     if desc['fam'] == 'gmm_direct':
         return check_gmm_direct(desc)
-    if desc['fam'] in ('extreme_axes', 'extreme_clustering'):
+    if desc['fam'] == 'run_args':
+        return check_run_args(desc)
+    if desc['fam'] == 'timesliced':
+        rng_ = scenes.rng_for(desc['s'], NUM, desc['i'])
+        case = {'scene': scenes.time_sliced_scene(rng_),
+                'prm': {'call': {'SLICING_PRMS': {'dt_scale': float(rng_.choice([100.0, 30.0, 1.0])), 'height_scale_kwargs': {'min_range': float(rng_.choice([1e5, 1e6]))}},
+                                 'MSA': None}, 'glob': {}}}
+    elif desc['fam'] in ('extreme_axes', 'extreme_clustering'):
         case = extreme_case(desc)
     else:
         case = empty_after_crop_case(desc) if desc['fam'] == 'empty_after_crop' else pipeline.materialise(desc)
@@ -273,6 +331,11 @@ def check(desc):
         tags.add('extra_object_columns')
     if sc.get('index_kind') == 'range':
         tags.add('range_index')
+    if desc['fam'] == 'timesliced' and run.exc is None:
+        d_ = run.chunk.data
+        for sid, g_ in d_[d_['slice_id'] >= 0].groupby('slice_id'):
+            if len(g_) >= 2 and g_['height'].nunique() == 1 and g_['ceilo'].nunique() == 1 and g_['dt'].nunique() == 1:
+                tags.add('single_slice_bundle_of_one_repeated_hit')      # a slice made of one hit reported under several types
     nontriv = [pipeline.case_digest(case)] if len(sc['rows']) > 1 else []
     res = {'evals': 1, 'nontrivial': nontriv, 'tags': sorted(tags), 'viol': viol,
            'counters': {'runs': 1, 'cpu_s_total': cpu}, 'case': case}
